@@ -28,7 +28,8 @@ RULE = ('Hypothesis call sequences (3-25 steps) on one SqParser: parse(src), eva
 ASSUMPTIONS = ['answers of the fresh world are memoised by (call, source, names contents, budget) when the names hold no '
                'callables - sound because that world never carries history']
 
-VALID = ['x + 1', 'y = [1,\n 2]\nlen(y)', 'a = 1\nb = 2\na + b', 'x = 1; y = 2\nx + y', '[1, 2] | map(v => v * x)', '{"a": [1,\n2]}',
+VALID = ['fz9(1)', 'match_all("a1b2", "[0-9]") | push(9)', 'match_all("a1b2", "[0-9]")', 'match_groups("ab", "(a)(b)").pop()', 'match_groups("ab", "(a)(b)")',
+         'sorted(y) | push(0)', 'sorted(y)', 'split("a b") | push("c")', 'split("a b")', 'x + 1', 'y = [1,\n 2]\nlen(y)', 'a = 1\nb = 2\na + b', 'x = 1; y = 2\nx + y', '[1, 2] | map(v => v * x)', '{"a": [1,\n2]}',
          'z = x\nz', 'f(\n1,\n2\n)' , 'str(x) + "\\n"', '# only a comment', '', 'x if x else 0', 'q = [\n]\nq', 'k = {\n"a": 1\n}\nk["a"]']
 LEXERR = ['x $ 1', '"unterminated', 'a ? b', '%x', 'x = 1\ny = @', '\x0cx', 'x\r y']
 SYNERR = ['1 +', 'f(', 'x = (1 + 2', '[1, 2', '{"a": 1', 'x = )', 'a b', ')', 'x = [1,\n2', '(1 + 2))\nx', 'f(1, 2]]', 'del', 'x +* 2',
@@ -127,12 +128,25 @@ def run_sequence(ops, case):
         kind = op[0]
         if kind in ('parse', 'eval', 'names'):
             src = op[1]
+            pre_names = None
+            if kind == 'eval' and op[2] is not None and not has_callable(sn[op[2]]):
+                pre_names = copy.deepcopy(sn[op[2]])
             if kind == 'parse':
                 so = outcome(lambda: p.parse(src), 'parse')
                 fo = fresh_call('parse', src, None, None)
             elif kind == 'names':
                 so = outcome(lambda: list(p.list_names(src)), 'names')
                 fo = fresh_call('names', src, None, None)
+            elif len(op) > 4 and op[4] == 'ast':
+                # an eval that passes ast_names: its definitions must not outlive the call
+                i, budget = op[2], op[3]
+                from smartquery import SqParser as _SP
+                so = outcome(lambda: p.eval(src, sn[i], ast_names={'fz9': p.parse('v => v + 1'), 'len': p.parse('v => 42')}, max_ops_evaluated=budget), 'eval')
+                fp = _SP()
+                fo = outcome(lambda: fp.eval(src, fn[i], ast_names={'fz9': fp.parse('v => v + 1'), 'len': fp.parse('v => 42')}, max_ops_evaluated=budget), 'eval')
+                for world in (sn, fn):
+                    world[i].pop('fz9', None)
+                    world[i].pop('len', None)
             elif op[2] is None:
                 so = outcome(lambda: p.eval(src, max_ops_evaluated=op[3]), 'eval')
                 fo = fresh_call('eval-nonames', src, None, op[3])
@@ -158,6 +172,16 @@ def run_sequence(ops, case):
                 bad(f'history-dependent:{kind}', f'{kind}({src!r}' + (f', names{op[2]}, budget {op[3]}' if kind == 'eval' else '') +
                     f') on the used parser gave {so!r}, on a fresh parser {fo!r}')
                 break
+            if kind == 'eval' and pre_names is not None and len(op) == 4 and so[0] == 'value' and 'rand' not in src and 'shuffle' not in src:
+                # absolute expectation as well: process-wide hidden state would fool the fresh-parser comparison
+                try:
+                    from sqv.spec import refsem
+                    rout, _ = refsem.run(neutral(shared().parse(src)), pre_names, max_ops=op[3])
+                    if rout[0] == 'value' and canon(rout[1]) != so[1]:
+                        bad('history-dependent:eval-vs-reference', f'eval({src!r}, names{op[2]}) gave {so!r}; the reference semantics give {rout[1]!r}')
+                        break
+                except Exception:  # noqa
+                    pass
             if kind == 'eval' and op[2] is not None and cn(sn[op[2]]) != cn(fn[op[2]]):
                 bad('history-dependent:names', f'eval({src!r}) left names {sn[op[2]]!r} on the used parser, {fn[op[2]]!r} on a fresh one')
                 break
@@ -261,6 +285,8 @@ def cases(draw):
             ops.append(('eval', pick(SYNERR + LEXERR), n(3), 100))
         elif r < 48:
             ops.append(('eval', pick(['zq = 7', 'zq', 'g = v => v * 3', 'g(2)', 'x = 1\ny = (', 'x', 'len = 5', 'len([1])']), None, 100))
+        elif r < 50:
+            ops.append(('eval', pick(['fz9(1)', 'len([1, 2])', 'x + 1', 'fz9(x)']), n(3), 100, 'ast'))
         elif r < 52:
             ops.append(('eval', pick(LAMBDA_DEF), n(3), 100))
         elif r < 62:
